@@ -73,8 +73,18 @@ Definition dec_num (s : sexp) : option (bytes * option N) :=
   end.
 Definition num_find (NT : ntable) (t : bytes) : option (option N) :=
   match find (fun e => bytes_eqb (fst e) t) NT with Some (_, v) => Some v | None => None end.
+(** integer tokens below 2^53 are converted by the model itself ([JsonText.int_bits]); the table
+    (strconv.ParseFloat) answers for the others, and must agree on the integers ([nums_agree]) *)
 Definition numval_of (NT : ntable) (t : bytes) : option N :=
-  match num_find NT t with Some v => v | None => None end.
+  match int_bits t with
+  | Some b => Some b
+  | None => match num_find NT t with Some v => v | None => None end
+  end.
+Definition nums_agree (NT : ntable) : bool :=
+  forallb (fun e => match int_bits (fst e) with
+                    | Some b => match snd e with Some b' => N.eqb b b' | None => false end
+                    | None => true
+                    end) NT.
 Definition tbl_parse (fl : flavour) (NT : ntable) (t : bytes) : jparse := parse_json fl (numval_of NT) t.
 
 (** [early]: the request body ended before the announced Content-Length (net/http reports
@@ -661,6 +671,7 @@ Definition check (c : sexp) : sexp :=
                                end
                            | _, _ => false
                            end) then v_bad "init-sequence-does-not-install-the-principal"
+                  else if negb (nums_agree T) then v_mismatch "number-conversion" []
                   else if negb (canonical_complete o is_sub subs) then v_bad "missing-canonical-transport"
                   else
                     let subs := map (refit T) subs in
